@@ -39,6 +39,8 @@ def build():
     from gemseo.algos.design_space import DesignSpace
     from gemseo.core.discipline import Discipline
 
+    CURVED = CFG.get("system") == "curved"
+
     class D1(Discipline):
         n = 0
 
@@ -72,12 +74,22 @@ def build():
             D2.n += 1
             x, y = input_data["x"], input_data["y"]
             crash_point(x)
-            out = {"f": array([(x[0] - 1) ** 2 + (x[1] - 2) ** 2 + y[0] ** 2]), "g": array([1 - x[0] - x[1]])}
+            if CURVED:
+                # a non-quadratic objective and a curved constraint: SLSQP needs many iterations, the run is
+                # ended by GEMSEO's ftol/xtol testers well before SLSQP's own convergence test
+                out = {"f": array([(x[0] - 1) ** 4 + (x[1] - 2) ** 2 + y[0] ** 2 + x[0] * x[1]]),
+                       "g": array([1 - x[0] - x[1] ** 2])}
+            else:
+                out = {"f": array([(x[0] - 1) ** 2 + (x[1] - 2) ** 2 + y[0] ** 2]), "g": array([1 - x[0] - x[1]])}
             emit(ev="exec_end", p=pt(x))
             return out
 
         def _compute_jacobian(self, input_names=(), output_names=()):
             x, y = self.io.data["x"], self.io.data["y"]
+            if CURVED:
+                self.jac = {"f": {"x": array([[4 * (x[0] - 1) ** 3 + x[1], 2 * (x[1] - 2) + x[0]]]), "y": array([[2 * y[0]]])},
+                            "g": {"x": array([[-1.0, -2 * x[1]]]), "y": array([[0.0]])}}
+                return
             self.jac = {"f": {"x": array([[2 * (x[0] - 1), 2 * (x[1] - 2)]]), "y": array([[2 * y[0]]])},
                         "g": {"x": array([[-1.0, -1.0]]), "y": array([[0.0]])}}
 
@@ -197,13 +209,25 @@ def main():
         samples = array(CFG["samples"], dtype=float)
         sc.execute(algo_name="CustomDOE", samples=samples)
     else:
-        # a restart continues the iteration count of the loaded history (the counter set by load=True
-        # is only effective when the driver is told not to reset it)
-        extra = {"reset_iteration_counters": False} if CFG.get("load") and not CFG.get("restart_default_reset") else {}
+        # counter policy of a restart: "kept" = reset_iteration_counters=False (the counter set by load=True
+        # stays effective), "reset" = the drivers' default (the counter restarts from 0 over the loaded history)
+        extra = {"reset_iteration_counters": False} if CFG.get("load") and CFG.get("policy", "kept") == "kept" else {}
         sc.execute(algo_name=CFG.get("algo", "SLSQP"), max_iter=CFG.get("max_iter", 8),
-                   normalize_design_space=bool(CFG.get("normalize", False)), **extra)
-    emit(ev="done", db=[{"pt": pt(k.wrapped_array), "outs": sorted(v)} for k, v in db.items()])
+                   normalize_design_space=bool(CFG.get("normalize", False)), **dict(CFG.get("settings", {}), **extra))
     res = sc.optimization_result
+    msg = "" if res is None or res.message is None else str(res.message)
+    # why the run ended, as the driver reports it: GEMSEO's budget, GEMSEO's ftol/xtol testers, or the
+    # algorithm itself (its own convergence test, or the end of the samples of a DOE)
+    if "GEMSEO stopped the driver" in msg and "Maximum number of iterations" in msg:
+        cause = "budget"
+    elif "GEMSEO stopped the driver" in msg and ("ftol_rel or ftol_abs" in msg or "xtol_rel or xtol_abs" in msg):
+        cause = "tol"
+    elif "GEMSEO stopped the driver" in msg:
+        cause = "other"
+    else:
+        cause = "algo"
+    emit(ev="done", db=[{"pt": pt(k.wrapped_array), "outs": sorted(v)} for k, v in db.items()],
+         counter=int(problem.evaluation_counter.current), cause=cause)
     out = {
         "n_exec": N_EXEC[0], "n1": classes[0].n, "n2": classes[1].n,
         "db": [{"pt": pt(k.wrapped_array), "vals": {n: np.ravel(np.asarray(v, dtype=float)).tolist() for n, v in d.items()}}
@@ -212,6 +236,7 @@ def main():
         "x_opt": None if res is None or res.x_opt is None else pt(res.x_opt),
         "is_feasible": None if res is None else bool(res.is_feasible),
         "counter": int(problem.evaluation_counter.current),
+        "message": msg, "cause": cause,
     }
     json.dump(out, open(CFG["result"], "w"))
 
